@@ -85,7 +85,7 @@ func checkC05(c *Ctx) {
 		}
 		c.runStoreGen(&StoreGen{Kinds: ks, Keys: keys, Q: 4, Weights: []int{0, 1, 2, 4, 8, 12},
 			Factors: [][2]int{{1, 4}, {1, 2}, {2, 1}, {3, 1}}, Ops: opsC05All, Depth: c.pick(14, 24),
-			Simulate: true, Num: c.pick(800, 30000)}, c.pick(8, 16), fmt.Sprintf("simulated %v", ks))
+			Simulate: true, Num: c.pick(800, 15000)}, c.pick(8, 16), fmt.Sprintf("simulated %v", ks))
 	}
 	c.runStoreTraces(c.pick(24, 100), traceGenOpts{Events: c.pick(400, 2000), Kinds: []string{"low", "high", "low", "high", "dense", "sparse", "paged"},
 		Limits: []int{1, 2, 3, 8, 128, 2048},
